@@ -1074,7 +1074,7 @@ class Value(Term):
             want_inline_parens
             and isinstance(self.value, (int, float))
             and (not isinstance(self.value, bool))
-            and (self.value < 0)
+            and value_text.startswith("-")
         ):
             # a negative literal starts with a unary minus: group it when nested in an operator expression
             return PythonText("(" + value_text + ")", is_in_parens=True)
